@@ -189,6 +189,12 @@ def check_refcount_pairing(ctx):
                 if st[0] == "A" and st[2][0] == "Agg" and st[2][1][0] == "Adt" and st[2][1][1].endswith("ops::Range"):
                     rng = [strip_casts(dg.expr(o)) for o in st[2][2]]
         ok_n = rng is not None and rng[0] == ("const", 0) and D.norm(rng[1]) == D.norm(n)
+        if not ok_n:
+            # iterator form of the same bound: `used_streams().iter().take(n as usize)`
+            tk = [c_ for (_, c_) in body.calls if c_.get("fname") == "take" and len(c_["args"]) == 2 and D.norm(strip_casts(dg.expr(c_["args"][1]))) == D.norm(n)
+                  and "used_streams" in show(dg.expr(c_["args"][0]))]
+            if len(tk) == 1:
+                ok_n = True; rng = [("const", 0), n]
         ctx.ob("R17.2", f"{k}|preload-equals-trip-count", ok_n, body.loc(ib), f"increment_references({show(n)}) vs loop range {[show(x) for x in rng] if rng else None}; required: the same value bounds the loop")
         ctx.ob("R17.2", f"{k}|preload-before-first-copy", all(body.dominates(ib, cb) for (cb, _) in cp), body.loc(ib), "the count is raised before the first copy becomes visible to a consumer")
         cps = {cb for (cb, _) in cp}
